@@ -203,7 +203,7 @@ def battery(ck):
     rng = random.Random(7 + ck.seed)
     vals = [0, 1, 2, N - 1, N - 2, 2**64 - 1, 2**64, 2**128, 2**255, (N - 1) // 2] + [rng.randrange(N) for _ in range(6)]
     cases = []
-    for op in ('add', 'sub', 'mul', 'square', 'invert', 'add-self', 'sub-self', 'mul-self', 'pow', 'one', 'minusone', 'zero'):
+    for op in ('add', 'sub', 'mul', 'square', 'invert', 'add-self', 'sub-self', 'mul-self', 'pow', 'pow-self', 'set-self', 'one', 'minusone', 'zero'):
         for a in vals[:8] + vals[-3:]:
             for b in (vals[:5] + vals[-2:]) if op in ('add', 'sub', 'mul', 'pow') else [1]:
                 cases.append({'kind': 'scalar-op', 'op': op, 'a': '%064x' % a, 'b': '%064x' % b})
